@@ -1351,7 +1351,8 @@ pub unsafe fn hook_futex(addr: *const AtomicU32, op: i32, val: u32, timeout: *co
             };
             if std::env::var_os("SIM_DEBUG_BLOCK").is_some() {
                 let bt = std::backtrace::Backtrace::force_capture().to_string();
-                let short: Vec<&str> = bt.lines().filter(|l| l.contains("rayon") || l.contains("std::thread") || l.contains("sync") || l.contains("routee") || l.contains("compass_sim")).take(14).collect();
+                let full = std::env::var("SIM_DEBUG_BLOCK").map_or(false, |v| v == "full");
+                let short: Vec<&str> = bt.lines().filter(|l| full || l.contains("rayon") || l.contains("std::thread") || l.contains("sync") || l.contains("routee") || l.contains("compass_sim")).take(if full { 80 } else { 14 }).collect();
                 let msg = format!("BLOCK step={} t{} addr={:x}\n{}\n", s.stats.steps, me, addr as usize, short.join("\n"));
                 raw_write_fd(2, msg.as_bytes());
             }
